@@ -585,8 +585,10 @@ TURTLE_WS = {0x20, 0x09, 0x0D, 0x0A}
 
 
 def char_predicate_set(facts, pred, fn=None):
-    """For `Iterator::all(pred)`: the set of accepted characters if `pred` is a workspace function that is a plain match on
-    the character; "std:<name>" if it is a std predicate; None otherwise."""
+    """For `Iterator::all(pred)`: the set of sample characters the predicate accepts, if `pred` is a workspace function / closure
+    whose result depends on the character through comparisons only (evaluated with eval_pure for every constant it mentions,
+    their neighbours and samples of Unicode white space); "std:<name>" if it is a std predicate; None otherwise."""
+    from mirutil import eval_pure
     arg = 1
     if pred[0] == "k" and pred[1].get("kind") == "fn":
         d = pred[1].get("def", "")
@@ -598,25 +600,33 @@ def char_predicate_set(facts, pred, fn=None):
     f = facts.fns.get(d)
     if f is None:
         return "std:" + d.split("::")[-1]
-    sw = [b["t"] for b in f.blocks if b["t"]["t"] == "switch" and b["t"].get("ty") == "char"]
-    if len(sw) != 1 or sw[0]["on"][0] == "k" or sw[0]["on"][1] != [arg]:
-        return None
-    t = sw[0]
-
-    def yields(bi):
-        for st in f.blocks[bi]["s"]:
-            if st[0] == "=" and st[1] == [0] and st[2][0] == "use" and st[2][1][0] == "k":
-                return st[2][1][1].get("v") == "1"
-        return None
-    if yields(t["else"]) is not False:
-        return None
+    consts = set()
+    for b in f.blocks:
+        t = b["t"]
+        if t["t"] == "switch" and t.get("ty") == "char":
+            consts |= {int(v) for v, _ in t["vals"]}
+        for st in b["s"]:
+            if st[0] == "=" and st[2][0] == "bin":
+                for op in st[2][2:4]:
+                    if op[0] == "k" and op[1].get("kind") == "int" and op[1].get("ty") in ("char", "u32", "u8"):
+                        consts.add(int(op[1]["v"]))
+    sample = consts | {0x09, 0x0A, 0x0B, 0x0C, 0x0D, 0x20, 0x85, 0xA0, 0x1680, 0x2000, 0x200A, 0x2028, 0x2029, 0x202F, 0x205F, 0x3000, 0x41, 0x30}
+    sample |= {c + dd for c in list(sample) for dd in (-1, 1) if c + dd >= 0}
     acc = set()
-    for v, tb in t["vals"]:
-        y = yields(tb)
-        if y is None:
+    for cp in sorted(sample):
+        try:
+            r, env = eval_pure(f, 0, 0, {arg: cp}, lambda b_: None, want_env=True)
+        except CheckError:
             return None
-        if y:
-            acc.add(int(v))
+        if r[0] != "term" or f.blocks[r[1]]["t"]["t"] != "ret":
+            t = f.blocks[r[1]]["t"]
+            if t["t"] == "call":
+                return "std:" + (t["f"].get("name") or "?").split("::")[-1]
+            return None
+        if env.get(0) == 1:
+            acc.add(cp)
+        elif env.get(0) != 0:
+            return None
     return acc
 
 
